@@ -331,7 +331,7 @@ pub fn check_ack_outcomes(logs: &[OpRec], during_shutdown: bool, counts: &mut Co
                     detail: format!("{} was acknowledged but the task that polled it was never woken", op.shape()), witness: witness(&[rec]), inconclusive: false }),
                 Some(Waited::WorkerDead) => {
                     let site = rt::panics_since(panic_mark).last().map(rt::panic_site).unwrap_or_else(|| "no-panic".into());
-                    findings.push(Finding { props: vec!["C17", "C12", "C13"], signature: format!("C17/worker-dead/{}/concurrent", site),
+                    findings.push(Finding { props: vec!["C17", "C12", "C13"], signature: format!("C17/worker-dead/{}/cmd={}/concurrent", site, rt::last_command_kind()),
                         detail: format!("the command worker terminated; the acknowledgement of {} never completes", op.shape()), witness: witness(&[rec]), inconclusive: false })
                 }
                 Some(Waited::Deadlock(d)) => findings.push(Finding { props: vec!["C18", "C12", "C13"], signature: format!("C18/deadlock/await/{}", op.shape()),
@@ -425,6 +425,7 @@ fn prep(perturb_seed: u64, p_yield: u64, p_spin: u64, p_sleep: u64, keep_events:
     r.weight_min.store(0, Ordering::SeqCst);
     r.weight_max_seen.store(0, Ordering::SeqCst);
     sched().release_all();
+    rt::clear_abort();
     sched().set_random(perturb_seed, p_yield, p_spin, p_sleep);
     sched().quiet_mask.store(0, Ordering::SeqCst);
 }
@@ -573,6 +574,7 @@ fn run_mixed(focus: &'static str, seed: u64, index: u64, clean: bool) -> CaseOut
         handles.push(thread::spawn(move || {
             let mut client = Client::with_clock(t as u64 + 1, clock);
             for n in 0..cfg.ops {
+                if rt::aborted() { break; }
                 let key = rng.range(1, cfg.keys);
                 if rng.chance(45, 100) {
                     let variant = rng.below(7) as usize;
